@@ -542,6 +542,27 @@ Definition has_labels (lm : list lentry) : bool :=
 Definition maps_ok (dm : list dentry) (lm : list lentry) (loff : nat) : bool :=
   forallb (lentry_ok dm loff) lm && nodupb (scalar_attrs lm) && has_nsites lm && has_tensors lm && has_labels lm.
 
+(* ------------------------------------------------------------------ container kind of what the loader leaves
+   in an attribute (a generated fact via the conversions of the load map; later behaviour depends on it:
+   a 0-d ndarray prefactor is mutable and is handed on by copy(), an object ndarray of label arrays is
+   sliced as a view) *)
+Inductive container := KPyScalar | KNdArray | KObjArray | KPyList.
+
+Definition scalar_container (c : conv) : container :=
+  match c with
+  | CInt | CBool | CItem0 | CLast => KPyScalar      (* int() / bool() / .item(0): immutable python value *)
+  | CNone | CAstypeInt => KNdArray                  (* what np.load returns (0-d array for a saved scalar) *)
+  | CAstypeIntTolist => KPyList
+  end.
+
+Definition loaded_containers (lm : list lentry) : list (string * container) :=
+  flat_map (fun e => match e with
+                     | LScalar a _ c => [(a, scalar_container c)]
+                     | LLabelList _ _ => [("<labels>"%string, KObjArray)]   (* the object array read from the file *)
+                     | LLabelFam _ _ _ => [("<labels>"%string, KPyList)]    (* list built by append *)
+                     | _ => []
+                     end) lm.
+
 (* ------------------------------------------------------------------ side files (dump_mps = "one" / "all")
    candidate-invariant check: in every reachable directory an un-killed dump raises nothing and leaves
    each path of [ps] holding the data of THAT dump *)
